@@ -62,6 +62,7 @@ class Func:
         self.decorators = getattr(node, "decorator_list", [])
         self.calls: list[CallSite] = []
         self.property_kind: Optional[str] = None  # getter | setter
+        self.local_imports: dict[str, str] = {}  # local name -> dotted external module / object
         self._own_nodes = None
 
     @property
@@ -388,9 +389,12 @@ class Program:
             elif isinstance(n, ast.Import):
                 for al in n.names:
                     owner.locals.add(al.asname or al.name.split(".")[0])
+                    owner.local_imports[al.asname or al.name.split(".")[0]] = al.name if al.asname else al.name.split(".")[0]
             elif isinstance(n, ast.ImportFrom):
                 for al in n.names:
                     owner.locals.add(al.asname or al.name)
+                    if n.level == 0 and n.module:
+                        owner.local_imports[al.asname or al.name] = f"{n.module}.{al.name}"
             for c in ast.iter_child_nodes(n):
                 visit(c)
 
@@ -474,6 +478,12 @@ class Program:
             if name in f.nested and name in f.locals:
                 return ("func", f.nested[name])
             if name in f.locals:
+                if name in f.local_imports:
+                    tgt = f.local_imports[name]
+                    if tgt in self.modules:
+                        return ("module", self.modules[tgt])
+                    if not tgt.startswith(PKG + "."):
+                        return ("external", tgt)
                 return ("local", f, name)
             f = f.parent
         r = self.resolve_global(mod, name)
